@@ -100,6 +100,13 @@ def run_check(repo, chk: Check, tier, prefix):
     except z3.Z3Exception as e:
         return [{"name": f"{prefix}.{chk.name}", "function": chk.functions[0], "backend": "pyvc", "result": "undecided",
                  "reason": f"encoding error: {e}", "ms": int((time.time() - t0) * 1000), "kind": chk.kind}], funcs, H
+    except (KeyError, AttributeError, TypeError, IndexError, ValueError, AssertionError, RecursionError) as e:
+        # the sidecar contract (loop invariant, spec builder) no longer matches the shape of the code (renamed local,
+        # restructured loop, different value kinds): the obligations cannot be generated -> undecided, never a violation
+        tb = traceback.format_exc().strip().splitlines()
+        return [{"name": f"{prefix}.{chk.name}", "function": chk.functions[0], "backend": "pyvc", "result": "undecided",
+                 "reason": f"sidecar contract does not match the current code: {type(e).__name__}: {e} ({tb[-3].strip() if len(tb) > 2 else ''})",
+                 "ms": int((time.time() - t0) * 1000), "kind": chk.kind}], funcs, H
     if not H.obligations:
         return [{"name": f"{prefix}.{chk.name}", "function": chk.functions[0], "backend": "pyvc", "result": "undecided",
                  "reason": "vacuity guard: the check generated zero obligations", "ms": 0, "kind": chk.kind}], funcs, H
